@@ -271,9 +271,29 @@ def run_mc(pid, tier, workdir, export_depth=None):
     return summary
 
 
+def run_engine_defects(pid, tier, workdir):
+    """Engine.tla with one defect switch set: the bounded instance must be refuted (the monitor / invariant of the property
+    sees a slip of that kind on the model).  Returns (records for the evidence, counterexample scripts)."""
+    out, scripts = [], []
+    for k, (defect, consts, expect) in enumerate(getattr(mcconf, "ENGINE_DEFECTS", {}).get(pid, [])):
+        consts = dict(consts)
+        consts["EngDefects"] = '{"%s"}' % defect
+        cfg = mcconf.cfg_text(consts)
+        res = run_tlc(os.path.join(workdir, "mcdef%d" % k), SPEC, consts.get("_module", "EngineConf"), cfg, workers=TLC_WORKERS, timeout=300, java_opts="-Xss1g -Xmx16g", soft=True)
+        found = [(name, h) for name, h in tla_json_lines(res["text"], "CEX") if name.split(":")[0] in expect]
+        rec = {"defect": defect, "refuted": bool(found), "invariant": found[0][0] if found else None, "distinct": res.get("distinct", 0), "wall_s": res["wall_s"]}
+        if found:
+            rec["counterexample_steps"] = len(found[0][1]) - 1
+            scripts.append(hist_to_script(found[0][1], "MC-DEFECT:%s:%s" % (pid, defect)))
+        else:
+            print("MODEL-SENSITIVITY property=%s the instance with defect switch %s was not refuted within its budget" % (pid, defect))
+        out.append(rec)
+    return out, scripts
+
+
 def engine_trace(trace, workdir):
     """Conformance of the recorded executions with Engine.tla + the state invariants on every observed state."""
-    cfg = "SPECIFICATION Spec\nCONSTANTS\n  PidMax = 65535\n  TPS = 1000\n  UnitsOn = FALSE\nINVARIANT Verdict\nPOSTCONDITION Consumed\nCHECK_DEADLOCK FALSE\n"
+    cfg = "SPECIFICATION Spec\nCONSTANTS\n  PidMax = 65535\n  TPS = 1000\n  UnitsOn = FALSE\n  EngDefects = {}\nINVARIANT Verdict\nPOSTCONDITION Consumed\nCHECK_DEADLOCK FALSE\n"
     res = run_tlc(os.path.join(workdir, "et"), SPEC, "EngineTrace", cfg, env={"TRACE": trace}, workers=1, timeout=3000, java_opts="-Xss1g -Xmx8g")
     v = tla_json_lines(res["text"], "VERDICT")
     if not v or not res["ok"]:
@@ -291,6 +311,7 @@ INV_PROPERTY = {"AlwaysDrains": "C08", "UserOpsTracked": "C01", "NoLiveIdTwice":
 # client lifecycle (C12): ClientLifecycle.tla + the real tokio client over a scripted transport
 
 LIFECYCLE_REGRESSIONS = [
+ {"cfg": {"src": "S3:lc-abandoned-results-at-disconnect", "auto_broker": True, "policy": "None"}, "steps": [{"a": "Start"}, {"a": "Run", "ms": 100}, {"a": "AutoBroker", "on": False}, {"a": "Subscribe", "drop": True}, {"a": "Abandon"}, {"a": "Yield", "n": 5}, {"a": "PeerClose"}, {"a": "AutoBroker", "on": True}, {"a": "Settle", "ms": 5000}, {"a": "Stop", "disc": False}, {"a": "Settle", "ms": 3000}]},
  {"cfg": {"src": "S3:lc-happy", "auto_broker": True}, "steps": [{"a": "Start"}, {"a": "Run", "ms": 100}, {"a": "Publish", "qos": 1}, {"a": "Run", "ms": 100}, {"a": "Stop", "disc": True}, {"a": "Settle", "ms": 2000}]},
  {"cfg": {"src": "S3:f02-stop-disc-then-connection-lost", "auto_broker": True}, "steps": [{"a": "Start"}, {"a": "Run", "ms": 100}, {"a": "WriteStall", "on": True}, {"a": "Stop", "disc": True}, {"a": "Yield", "n": 5}, {"a": "PeerClose"}, {"a": "Settle", "ms": 5000}, {"a": "Start"}, {"a": "Settle", "ms": 3000}]},
  {"cfg": {"src": "S3:f03-stop-disc-during-handshake", "auto_broker": False}, "steps": [{"a": "Start"}, {"a": "WaitWritten", "what": "CONNECT"}, {"a": "Stop", "disc": True}, {"a": "Yield", "n": 5}, {"a": "Send", "what": "connack_ok"}, {"a": "Settle", "ms": 60000}]},
@@ -299,7 +320,7 @@ LIFECYCLE_REGRESSIONS = [
 ]
 
 
-def lifecycle_hist_to_script(hist, src):
+def lifecycle_hist_to_script(hist, src, policy=""):
     """Decision history of ClientLifecycle.tla -> script for client_run (tokio client, scripted transport)."""
     outcomes = [d["a"] for d in hist if d["a"] in ("ConnectOk", "ConnectRefused")]
     plan = lambda o: {"a": "ConnectPlan", "mode": "ok_stalled" if o == "ConnectOk" else "refuse"}
@@ -324,8 +345,11 @@ def lifecycle_hist_to_script(hist, src):
         elif a == "Send": steps += [{"a": "Send", "what": d["what"]}, {"a": "Yield", "n": 2}]
         elif a == "PeerClose": steps += [{"a": "PeerClose"}, {"a": "Yield", "n": 2}]
         elif a == "ReadError": steps += [{"a": "ReadError"}, {"a": "Yield", "n": 2}]
+        # an operation the disconnection will fail, its result handle dropped at once: a QoS 0 publish (failed under the default
+        # offline policy), and under PreserveNothing an unacknowledged subscribe as well
+        elif a == "Abandon": steps += [{"a": "Abandon"}] + ([{"a": "Subscribe", "drop": True}] if policy == "None" else []) + [{"a": "Yield", "n": 3}]
     steps += [{"a": "WriteStall", "on": False}, {"a": "AutoBroker", "on": True}, {"a": "Settle", "ms": 30000}]
-    return {"cfg": {"src": src, "auto_broker": False, "base_ms": 100, "max_ms": 1000, "jitter": "none", "connect_timeout_ms": 5000, "ka": 0}, "steps": steps}
+    return {"cfg": {"src": src, "auto_broker": False, "base_ms": 100, "max_ms": 1000, "jitter": "none", "connect_timeout_ms": 5000, "ka": 0, "policy": policy}, "steps": steps}
 
 
 THREADED_LIFECYCLE_REGRESSIONS = [
@@ -384,7 +408,7 @@ def run_lifecycle_mc(workdir, tier):
     out["instances"].append({"name": "repaired behaviour, safety + liveness", "distinct": main.get("distinct", 0), "generated": main.get("generated", 0), "wall_s": main["wall_s"], "ok": True})
     out["distinct"] += main.get("distinct", 0); out["generated"] += main.get("generated", 0)
     for defect, expect in (("close-fails-with-queued-disconnect", "LoopNeverDies"), ("stop-waits-for-refused-disconnect", "StopStops"), ("close-waits-for-discarded-disconnect", "CloseCloses"),
-                           ("stale-last-connack", "EventStreamWellFormed")):
+                           ("stale-last-connack", "EventStreamWellFormed"), ("abandoned-result-fails-close", "LoopNeverDies")):
         r = run_tlc(os.path.join(workdir, "lc-" + defect[:12]), SPEC, "ClientLifecycle", cfg([defect], False, True, 4, 3), workers=8, timeout=1200)
         found = (not r["ok"]) and (expect in r["text"] or (expect == "EventStreamWellFormed" and "Invariant" in r["text"]))
         out["instances"].append({"name": "defect switched on: " + defect, "expected_violation": expect, "found": found, "distinct": r.get("distinct", 0), "wall_s": r["wall_s"]})
@@ -397,7 +421,7 @@ def run_lifecycle_mc(workdir, tier):
     out["histories"] = []
     for _, h in tla_json_lines(exp["text"], "SCRIPT"):
         out["histories"].append(h)
-        out["scripts"].append(lifecycle_hist_to_script(h, "S1:lifecycle:%d" % len(out["scripts"])))
+        out["scripts"].append(lifecycle_hist_to_script(h, "S1:lifecycle:%d" % len(out["scripts"]), policy="None" if len(out["scripts"]) % 2 else ""))
     out["instances"].append({"name": "script export (safety, view without history)", "distinct": exp.get("distinct", 0), "generated": exp.get("generated", 0), "wall_s": exp["wall_s"], "ok": True})
     return out
 
@@ -446,7 +470,7 @@ def check_lifecycle(pid, tier, seed):
                 "exhaustive": True, "model_checking": {"instances": mc["instances"], "scripts_exported": len(mc["scripts"]), "scripts_replayed": len(s1)},
                 "events_validated": verdict["events"], "panics_observed": stats["panics"], "breaches": len(breaches), "known_findings_seen": sorted(set(seen)),
                 "explanation": ("TLC checked ClientLifecycle.tla (client state machine + event loop + transport; safety and liveness under fairness; %d distinct states) "
-                                "and rediscovered each of the three repaired defects when it is switched back on; %d executions of the real tokio client over a scripted transport "
+                                "and rediscovered each of the recorded defects when it is switched back on; %d executions of the real tokio client over a scripted transport "
                                 "(regression scripts and %d schedules exported by TLC) were judged by the same monitor MonC12") % (mc["distinct"], stats["runs"], len(s1))}
     write_evidence(pid, tier, seed, coverage,
                    ["the tokio client on a current-thread runtime with a paused clock: 'bounded time' is virtual time after the scripted transport has reacted",
@@ -1069,9 +1093,9 @@ def extreme_config_half(pid, tier, seed, workdir, known):
 
 def engine_volume(tier):
     if tier == "thorough":
-        v = dict(scripted=600, adversarial=600, faithful=600, cycles=1200, races=1200, length=70, s1=8000)
+        v = dict(scripted=600, adversarial=600, faithful=600, cycles=1200, races=1200, limits=1200, interrupted=1200, wrapnear=1200, length=70, s1=8000)
     else:
-        v = dict(scripted=150, adversarial=150, faithful=150, cycles=300, races=300, length=50, s1=2500)
+        v = dict(scripted=150, adversarial=150, faithful=150, cycles=300, races=300, limits=300, interrupted=300, wrapnear=300, length=50, s1=2500)
     scale = float(os.environ.get("VERIF_VOLUME_SCALE", "1"))      # (for trying the plumbing of a tier quickly)
     return {k: (x if k == "length" else max(1, int(x * scale))) for k, x in v.items()}
 
@@ -1126,14 +1150,15 @@ def check_engine_property(pid, tier, seed):
     mc = run_mc(pid, tier, workdir, export_depth=depth)
     s1 = sample_deep(mc["scripts"], vol["s1"])
     cex = [c["script"] for c in mc["cex"][:20]]
+    defects, defect_scripts = run_engine_defects(pid, tier, workdir)
     s1_path = os.path.join(workdir, "s1.scripts")
     with open(s1_path, "w") as f:
-        for sc in cex + s1:
+        for sc in cex + defect_scripts + s1:
             f.write(json.dumps(sc) + "\n")
 
     # 2. code: execute the scenarios on the real engine (S1 from TLC, S2 random, S3 regression)
     args = ["--state", "--scripts-in", s1_path, "--regress", "--scripted", str(vol["scripted"]), "--adversarial", str(vol["adversarial"]),
-            "--faithful", str(vol["faithful"]), "--cycles", str(vol["cycles"]), "--races", str(vol["races"]), "--len", str(vol["length"]), "--seed", str(seed)]
+            "--faithful", str(vol["faithful"]), "--cycles", str(vol["cycles"]), "--races", str(vol["races"]), "--limits", str(vol["limits"]), "--interrupted", str(vol["interrupted"]), "--wrapnear", str(vol["wrapnear"]), "--len", str(vol["length"]), "--seed", str(seed)]
     if tier == "thorough" and pid == "C06":
         args += ["--wrap", "1"]
     trace, scripts, stats = engine_run(args, workdir, "runs")
@@ -1150,7 +1175,7 @@ def check_engine_property(pid, tier, seed):
     # drift escalates: look ten times harder around it before concluding
     if conf["drift"] and violations == 0:
         args2 = ["--state", "--scripted", str(vol["scripted"] * 5), "--adversarial", str(vol["adversarial"] * 5), "--faithful", str(vol["faithful"] * 5),
-                 "--cycles", str(vol["cycles"] * 5), "--races", str(vol["races"] * 5), "--len", str(vol["length"]), "--seed", str(seed + 7919)]
+                 "--cycles", str(vol["cycles"] * 5), "--races", str(vol["races"] * 5), "--limits", str(vol["limits"] * 5), "--interrupted", str(vol["interrupted"] * 5), "--wrapnear", str(vol["wrapnear"] * 5), "--len", str(vol["length"]), "--seed", str(seed + 7919)]
         trace2, scripts2, stats2 = engine_run(args2, workdir, "escalated")
         v2, seen2, details2, _ = judge_trace(pid, trace2, scripts2, workdir, known, log, "esc")
         violations += v2
@@ -1184,10 +1209,11 @@ def check_engine_property(pid, tier, seed):
         "traces_validated_against_impl": stats["runs"], "samples": samples,
         "exhaustive": bool(mc["instances"]) and all(i["ok"] and i["finished"] for i in mc["instances"]),
         "model_checking": {"instances": mc["instances"], "witnesses": mc["witnesses"], "counterexamples": len(mc["cex"]), "note": mc_note,
-                           "scripts_exported": len(mc["scripts"]), "scripts_replayed": len(s1) + len(cex)},
+                           "scripts_exported": len(mc["scripts"]), "scripts_replayed": len(s1) + len(cex),
+                           "defect_switches": defects},
         "events_validated": details["events"],
         "scenario_sources": {"S1_tlc_scripts": len(s1) + len(cex), "S3_regression": True, "S2_scripted": vol["scripted"], "S2_adversarial": vol["adversarial"],
-                             "S2_faithful": vol["faithful"], "S2_cycles": vol["cycles"], "S2_races": vol["races"]},
+                             "S2_faithful": vol["faithful"], "S2_cycles": vol["cycles"], "S2_races": vol["races"], "S2_limits": vol["limits"], "S2_interrupted": vol["interrupted"], "S2_wrapnear": vol["wrapnear"]},
         "panics_observed": stats["panics"], "inapplicable_decisions": stats["inapplicable"],
         "breaches": details["breaches"], "known_findings_seen": sorted(set(seen)),
         "conformance": details["conformance"],
